@@ -438,6 +438,15 @@ func init() {
 			// the ownerless pool-token ticker can be recreated / re-owned by nobody
 			rc("kind", 3, "ticker", 3, "pool10", 1, "lp10", 1, "concretePool", 1), rc("kind", 2, "ticker", 3, "pool10", 1, "lp10", 1, "concretePool", 1), rc("kind", 4, "ticker", 3, "pool10", 1, "lp10", 1, "concretePool", 1)},
 			Bounds: "one CheckTx+DeliverTx of CreateCoin / CreateToken / RecreateCoin / RecreateToken / EditCoinOwner for a free ticker or the existing tickers, by the ticker owner or another account; amounts, reserve, max supply, crr symbolic; one recreation (version 1), repeated recreation outside the bound"}
+		// the same with an arbitrary price table (zero entries included): the fee of
+		// each type is its own table entry, the ticker fee is burned
+		regSym := HSpec{Pkg: txPkg, Func: "VerifHarness_CoinRegistry_Deliver", Tier: "quick", Configs: []map[string]int64{
+			cfg("kind", 0, "ticker", 0), cfg("kind", 1, "ticker", 0), cfg("kind", 2, "ticker", 1), cfg("kind", 3, "ticker", 2), cfg("kind", 4, "ticker", 1)},
+			Bounds: "as above with a symbolic price table and gas price"}
+		for _, id := range []string{"C27", "C03", "C06", "C22"} {
+			add(id, txAssumptions, regSym)
+		}
+		add("C27", txAssumptions, reg)
 		for _, id := range []string{"C22", "C01", "C02", "C03", "C05", "C06", "C07"} {
 			add(id, txAssumptions, reg)
 		}
